@@ -14,6 +14,7 @@ CONSTANTS
   Tags = {"t"}
   LoadLocks = TRUE
   SaveLocks = TRUE
+  TruncFirst = FALSE
   Reread = TRUE
 INVARIANTS
   TypeOK
